@@ -748,3 +748,40 @@ def r9_degenerate_phases(ck, P):
             ck.violation(R, tw.name, 'normalisation divides by an untested total', '%s divides %s by the sum of a phase without testing that the sum is non-zero: a phase in which an impulse kernel missed every sample position is filled with NaN-derived values and does not sum to 65536' % (tw.name, x.a[0][1]), x.loc())
     if n == 0:
         ck.incomplete(R, 'no normalising division found in %s' % tw.name)
+
+
+def r10_touching_supports(ck, P):
+    """T-GRD: the kernel table contains a kernel of width 0 (IMPULSE); its support touches another kernel's support in a single point, so
+    every floating-point guard on the way to integral() has to hold with equality."""
+    R = ck.rule('C18-R10', 'filters[] contains a kernel whose support has width 0, so in create_1d_filter every floating-point comparison that guards the call of integral() is non-strict (holds when the two supports touch in a single point): a strict test gives every tap of an IMPULSE axis the weight 0', floor=2)
+    u, g = P.global_('filters', 'pixman-filter.c')
+    t = P.table(u, g)
+    zero = [r for r in t if isinstance(r.get('width'), dict) and float(r['width'].get('fp', 1)) == 0.0] if t and isinstance(t[0], dict) and 'width' in t[0] else None
+    if zero is None:
+        zero = [r for r in g.get('init', []) if isinstance(r, list) and len(r) == 3 and isinstance(r[2], dict) and float(r[2].get('fp', 1)) == 0.0]
+    f = u.functions.get('create_1d_filter')
+    if f is None:
+        ck.incomplete(R, 'create_1d_filter not found'); return
+    ck.saw(f)
+    if not zero:
+        ck.ok(R, 'filters[] has no kernel of width 0: nothing to require'); ck.ok(R, 'filters[] (no zero-width row)'); return
+    calls = list(f.calls('integral'))
+    if not calls:
+        ck.incomplete(R, 'create_1d_filter does not call integral()'); return
+    for c in calls:
+        n = 0
+        for t_, s in f.guard_edges(c.bb.id):
+            cc = f.v(t_.a[0]) if t_.a else None
+            if cc is None or cc.op != 'fcmp':
+                continue
+            n += 1
+            pr = cc.d['p'][1:]
+            taken = t_.d['succ'][0] == s
+            admits_eq = pr in ('ge', 'le', 'eq') if taken else pr in ('gt', 'lt', 'ne')
+            where = 'guard at %s on the way to integral() (%s, %s edge)' % (cc.loc(), cc.d['p'], 'true' if taken else 'false')
+            if admits_eq:
+                ck.ok(R, where)
+            else:
+                ck.violation(R, f.name, 'guard of integral() at %s' % cc.loc(), 'integral() is only reached when a floating-point comparison holds strictly (%s on the %s edge); filters[] has a kernel of width 0 (row %s) whose support meets the other kernel in exactly one point, so with this guard every tap of such an axis gets weight 0 and the phase no longer sums to one' % (cc.d['p'], 'true' if taken else 'false', zero[0][0] if isinstance(zero[0], list) else zero[0].get('kernel')), cc.loc())
+        if n == 0:
+            ck.ok(R, 'integral() at %s is called unconditionally' % c.loc())
